@@ -19,6 +19,20 @@ fn rat(x: &Sx) -> Option<h::RawRat> {
     Some(h::RawRat { neg: l[0].as_u64()? == 1, num: uint(&l[1])?, den: uint(&l[2])? })
 }
 
+// real = (pi rat), cplx = (real real)
+fn cplx(x: &Sx) -> Option<h::RawCplx> {
+    let l = x.as_list()?;
+    if l.len() != 2 { return None; }
+    let part = |y: &Sx| -> Option<(bool, h::RawRat)> {
+        let p = y.as_list()?;
+        if p.len() != 2 { return None; }
+        Some((p[0].as_u64()? == 1, rat(&p[1])?))
+    };
+    let (re_pi, re) = part(&l[0])?;
+    let (im_pi, im) = part(&l[1])?;
+    Some(h::RawCplx { re, re_pi, im, im_pi })
+}
+
 fn out_uint(u: &h::RawUint) -> Sx {
     let mut v = vec![sx::a(u64::from(u.large))];
     v.extend(u.limbs.iter().map(|l| sx::a(*l)));
@@ -47,6 +61,11 @@ fn run(op: &str, args: &[Sx]) -> Option<Sx> {
                 Err(m) => sx::l(vec![sx::s("err"), sx::s(&m)]),
             }
         }
+        // (eval-raw "source") -> raw representation of the resulting number
+        "eval-raw" => {
+            let Some(t) = args.first().and_then(Sx::as_str) else { return Some(sx::bad()) };
+            out(h::eval_raw(t))
+        }
         // (u1 "op" rat)
         "u1" => {
             let (Some(name), Some(a)) = (args.first().and_then(Sx::as_str), args.get(1).and_then(rat)) else { return Some(sx::bad()) };
@@ -57,6 +76,16 @@ fn run(op: &str, args: &[Sx]) -> Option<Sx> {
             let (Some(name), Some(a), Some(b)) = (args.first().and_then(Sx::as_str), args.get(1).and_then(rat), args.get(2).and_then(rat))
                 else { return Some(sx::bad()) };
             out(h::binary(name, &a, &b))
+        }
+        // (c1 "op" cplx), (c2 "op" cplx cplx): same operations on raw complex numbers
+        "c1" => {
+            let (Some(name), Some(a)) = (args.first().and_then(Sx::as_str), args.get(1).and_then(cplx)) else { return Some(sx::bad()) };
+            out(h::unary_c(name, &a))
+        }
+        "c2" => {
+            let (Some(name), Some(a), Some(b)) = (args.first().and_then(Sx::as_str), args.get(1).and_then(cplx), args.get(2).and_then(cplx))
+                else { return Some(sx::bad()) };
+            out(h::binary_c(name, &a, &b))
         }
         // (b1 "op" uint): BigUint method directly on the raw representation
         "b1" => {
